@@ -73,9 +73,9 @@ InM(k) == k \in ClassKeys \cup VarKeys
 
 \* a row: [key, types (the class key its type denotes), attrs (forest over class keys), via]
 AttrTrees == {[ty |-> t, kids |-> ks] : t \in ClassKeys \cup ExtKeys, ks \in {<<>>} \cup {<<[ty |-> u, kids |-> <<>>]>> : u \in ClassKeys \cup ExtKeys}}
-VarRows(k) == {[key |-> k, kind |-> "var", types |-> t, attrs |-> a, via |-> v] :
-                 t \in ClassKeys \cup ExtKeys, a \in {<<>>} \cup {<<x>> : x \in AttrTrees},
-                 v \in (IF ViaFree THEN ClassKeys \cup ExtKeys ELSE {t})}
+VarRows(k) == UNION {{[key |-> k, kind |-> "var", types |-> t, attrs |-> a, via |-> v] :
+                        a \in (IF ViaFree THEN {<<>>} ELSE {<<>>} \cup {<<x>> : x \in AttrTrees}),
+                        v \in (IF ViaFree THEN ClassKeys \cup ExtKeys ELSE {t})} : t \in ClassKeys \cup ExtKeys}
 ClassRow(k) == [key |-> k, kind |-> "class", types |-> k, attrs |-> <<>>, via |-> k]
 
 \* tables: insertion orders of the two class rows and two variable rows
@@ -108,5 +108,9 @@ ImportNeverDangling == \A tab \in Tables : LET o == OrderKeys(tab) IN
    /\ {o[i] : i \in DOMAIN o} = {tab[i].key : i \in DOMAIN tab} /\ Len(o) = Len(tab)
    /\ \A i \in DOMAIN o : \A d \in Deps(RowOf(tab, o[i])) : InM(d) => \E j \in 1..(i - 1) : o[j] = d \/ d = o[i]
 
-Emit == \A f \in Forests : PrintT("FOREST " \o ToJson([forest |-> f, flat |-> Flatten(f)]))
+RECURSIVE NodesOf(_), NodesOfForest(_)
+NodesOfForest(f) == IF f = <<>> THEN 0 ELSE NodesOf(Head(f)) + NodesOfForest(Tail(f))
+NodesOf(t) == 1 + NodesOfForest(t.kids)
+\* the shapes replayed on the real serializer: every forest with at most 5 nodes
+Emit == \A f \in {g \in Forests : g # <<>> /\ NodesOfForest(g) <= 5} : PrintT("FOREST " \o ToJson([forest |-> f, flat |-> Flatten(f)]))
 =============================================================================
